@@ -103,13 +103,23 @@ package gradtrack
 //@   target a
 //@   implements gradtrack.chainGradFunc
 //@   requires dotShapes(y, a, b)
+//@   wants unsq
+//@   have res0 != nil && sameShape(res0, b) && isUnsqOf(gy, gradOf(y), rank(y))
+//@   have forallJ(J, imp(inb(res0, J), el(gy, proj(gy, res0, J)) == el(gradOf(y), del(J, rank(a) - 1)))) @uses unsqProjEl
+//@   have forallJ(J, imp(inb(res0, J), el(b, proj(b, res0, J)) == el(b, J)))
 //@   ensures[C02] res1 == nil && res0 != nil && sameShape(res0, a) && isGrad(res0)
+//@   ensures[C02] forallJ(J, imp(inb(res0, J), el(res0, J) == el(gradOf(y), del(J, rank(a) - 1)) * el(b, J)))
 //@ func Dot#1
 //@   source y
 //@   target b
 //@   implements gradtrack.chainGradFunc
 //@   requires dotShapes(y, a, b)
+//@   wants unsq
+//@   have res0 != nil && sameShape(res0, a) && isUnsqOf(gy, gradOf(y), rank(y))
+//@   have forallJ(J, imp(inb(res0, J), el(gy, proj(gy, res0, J)) == el(gradOf(y), del(J, rank(a) - 1)))) @uses unsqProjEl
+//@   have forallJ(J, imp(inb(res0, J), el(a, proj(a, res0, J)) == el(a, J)))
 //@   ensures[C02] res1 == nil && res0 != nil && sameShape(res0, b) && isGrad(res0)
+//@   ensures[C02] forallJ(J, imp(inb(res0, J), el(res0, J) == el(gradOf(y), del(J, rank(a) - 1)) * el(a, J)))
 
 //@ define mmShapes(y, a, b) := opnd(a) && opnd(b) && y != nil && rank(a) >= 2 && rank(b) == rank(a) && rank(y) == rank(a)
 //@                            && forall(k, 0, rank(a)-2, dim(a, k) == dim(b, k) && dim(y, k) == dim(a, k))
@@ -118,18 +128,25 @@ package gradtrack
 //@   requires mmShapes(y, a, b)
 //@   returns fresh
 //@   ensures[C08] newCtx2(gctx, a, b) && edges2(gctx, y, a, b)
+// the value: grad a = upstream . b^T and grad b = a^T . upstream (batched matrix products; mmsum is the sum of products
+// that MatMul is proved to compute), stated with the transposed operand as an existential witness
+//@ define isTrOf(p, t) := p != nil && trShape(p, t) && forallJ(K, imp(inb(p, K), el(p, K) == el(t, swap2(K, rank(t)))))
 //@ func MatMul#0
 //@   source y
 //@   target a
 //@   implements gradtrack.chainGradFunc
 //@   requires mmShapes(y, a, b)
+//@   witness bt = ga
 //@   ensures[C02] err == nil && o != nil && sameShape(o, a) && isGrad(o)
+//@   ensures[C02] existsT(bt, isTrOf(bt, b) && forallJ(J, imp(inb(o, J), el(o, J) == mmsum(gradOf(y), bt, J))))
 //@ func MatMul#1
 //@   source y
 //@   target b
 //@   implements gradtrack.chainGradFunc
 //@   requires mmShapes(y, a, b)
+//@   witness at = gb
 //@   ensures[C02] err == nil && o != nil && sameShape(o, b) && isGrad(o)
+//@   ensures[C02] existsT(at, isTrOf(at, a) && forallJ(J, imp(inb(o, J), el(o, J) == mmsum(at, gradOf(y), J))))
 
 /* ---------------- gradients.go: Concat ---------------- */
 
